@@ -333,6 +333,11 @@ class NInterp(sym.Interp):
         if isinstance(v, IndexedVec):
             if name in ("as_slice", "clone", "clone_owned", "as_mut_slice"):
                 return v.value() if name != "clone" else IndexedVec(v.base, v.deltas)
+        if name in ("set_column", "set_row") and len(n["args"]) == 2 and not isinstance(v, (MatVal, ColsVal, list, sp.Symbol, DequeVal)) and place(n["recv"]):
+            # a matrix the domain does not hold entry by entry (a zero-initialised D×D buffer): the store is recorded against the place
+            val = self.ev(n["args"][1])
+            self.stores.append((place(n["recv"]).split(".")[-1], (self.ev(n["args"][0]),), val, n))
+            return None
         if isinstance(v, sp.Symbol) and name in ("set_column", "set_row", "copy_from"):
             val = self.ev(n["args"][-1])
             self.stores.append((v.name, tuple(self.ev(a) for a in n["args"][:-1]), val, n))
